@@ -25,6 +25,10 @@ inductive REv where
   | dealt (damage hit : Rat)
   | keydownEnd
   | addDot (damage : Rat) (lasting : Int)
+  /-- a damage event whose modifier is not the component's default one (canonical JSON text of the Stat) -/
+  | dealtMod (damage hit : Rat) (modifier : String)
+  /-- any other event: its tag (or method, for tag-less events) and the canonical JSON text of its payload -/
+  | custom (tag : String) (payload : String)
 deriving DecidableEq, Repr
 
 def REv.isReject : REv → Bool
